@@ -7,7 +7,10 @@ package main
 // error this code base ignores by convention, and single sites confirmed by reading, one reason each.
 
 import (
+	"encoding/json"
 	"fmt"
+	"os"
+	"path/filepath"
 	"sort"
 	"strings"
 
@@ -41,9 +44,77 @@ var errIgnoredSites = map[string]string{
 	"(*http3.frameParser).ParseNext→field closeConn":                                                       "closing the connection is best effort; the parse error is returned right after",
 	"(*http3.responseWriter).WriteHeader→(*http3.responseWriter).writeHeader":                              "http.ResponseWriter.WriteHeader has no error result; a failed 1xx write surfaces on the next write",
 	"(*http3.requestWriter).encodeHeaders→(*github.com/quic-go/qpack.Encoder).WriteField":                  "the encoder writes into a bytes.Buffer: cannot fail",
+	// sites outside the analysed functions, reached by the thorough tier (all functions of the anchored files)
+	"(*quic.Conn).handleHandshakeComplete→(*quic.baseCryptoStream).Write":                    "the 1-RTT crypto stream's Write only appends to a buffer (the scrambling Initial stream is the one that can fail)",
+	"(*quic.Conn).restoreTransportParameters→(*quic.connIDGenerator).SetMaxActiveConnIDs":    "fails only when the connection ID generator (random source) fails; as upstream",
+	"(*quic.Conn).sendPackets→(*quic.Transport).WriteTo":                                     "path probe packets are best effort: a lost probe is retried by the path manager's timer",
+	"(*quic.baseServer).cleanupZeroRTTQueues→internal/wire.ParseVersion":                     "the version is used only in a qlog event for a packet that is dropped anyway",
+	"(*quic.baseServer).handle0RTTPacket→internal/wire.ParseVersion":                         "the version is used only in a qlog event for a packet that is dropped anyway",
+	"http3.ConfigureTLSConfig→(*github.com/refraction-networking/utls.Config).DecryptTicket": "called only for its side effect of initialising the session ticket keys (golang/go#60506); `_, _ =` in the source",
 }
 
 var scopeFuncByName map[string]*ssa.Function
+
+// gVerifDir is where properties.jsonl lives (set by main).
+var gVerifDir string
+
+// anchorPatterns: the anchors.files patterns of a property (exact paths, globs, directory prefixes).
+func anchorPatterns(prop string) []string {
+	data, err := os.ReadFile(filepath.Join(gVerifDir, "properties.jsonl"))
+	if err != nil {
+		return nil
+	}
+	for _, line := range strings.Split(string(data), "\n") {
+		var d struct {
+			ID      string `json:"id"`
+			Anchors struct {
+				Files []string `json:"files"`
+			} `json:"anchors"`
+		}
+		if json.Unmarshal([]byte(line), &d) == nil && d.ID == prop {
+			return d.Anchors.Files
+		}
+	}
+	return nil
+}
+
+func matchesAnchor(rel string, pats []string) bool {
+	for _, p := range pats {
+		if p == rel {
+			return true
+		}
+		if strings.HasSuffix(p, "/") && strings.HasPrefix(rel, p) {
+			return true
+		}
+		if ok, _ := filepath.Match(p, rel); ok {
+			return true
+		}
+	}
+	return false
+}
+
+// anchoredFuncs: the top-level functions declared in the files the property is anchored in (thorough tier).
+func anchoredFuncs(c *Ctx) []string {
+	pats := anchorPatterns(c.Prop)
+	if len(pats) == 0 {
+		return nil
+	}
+	var out []string
+	for _, f := range c.P.ScopeFuncs() {
+		if f.Parent() != nil || f.Pos() == 0 {
+			continue
+		}
+		file := c.P.Fset.Position(f.Pos()).Filename
+		rel, err := filepath.Rel(c.P.RepoDir, file)
+		if err != nil || strings.HasSuffix(rel, "_test.go") {
+			continue
+		}
+		if matchesAnchor(filepath.ToSlash(rel), pats) {
+			out = append(out, funcName(f))
+		}
+	}
+	return out
+}
 
 func errDiscipline(c *Ctx) {
 	R := c.Prop + ".E"
@@ -59,8 +130,19 @@ func errDiscipline(c *Ctx) {
 		}
 	}
 	var names []string
+	seenName := map[string]bool{}
 	for k := range c.FuncsSet {
 		names = append(names, k)
+		seenName[k] = true
+	}
+	if c.Tier == "thorough" {
+		// thorough tier: every function declared in the files the property is anchored in
+		for _, k := range anchoredFuncs(c) {
+			if !seenName[k] {
+				seenName[k] = true
+				names = append(names, k)
+			}
+		}
 	}
 	sort.Strings(names)
 	calls, fns := 0, 0
